@@ -21,6 +21,13 @@ fn minmax_template(ctx: &mut Ctx) -> Vec<Rule> {
 
 pub fn gen(ctx: &mut Ctx) -> Vec<String> {
     let mut out = vec![];
+    for _ in 0..ctx.budget(150, 1500) { // ranking aggregates: several rows per group, arity = group + output variables
+        let (shape, text, ar) = gen_ranking(ctx);
+        ctx.count(&format!("shape_rank_{shape}"));
+        let edb = gen_ranking_edb(ctx);
+        let w = *ctx.pick(&[1usize, 1, 2, 4]);
+        out.push(format!("c07.rank 00000:{w}:0 {ar} {} | {}", hex(text.as_bytes()), items_wire(&edb, &[])));
+    }
     let n = ctx.budget(1000, 8000);
     for i in 0..n {
         let (shape, rules) = if i % 12 == 0 { ("recursive_minmax", minmax_template(ctx)) } else { let g = gen_program(ctx); (g.shape, g.rules) };
@@ -39,6 +46,13 @@ pub fn exec(req: &str) -> String {
     // watchdog: a diverging fix-point must not hang the run
     let (tx, rx) = std::sync::mpsc::channel();
     std::thread::spawn(move || {
+        if let Some(rest) = req.strip_prefix("c07.rank ") {
+            let (head, items) = rest.split_once(" | ").unwrap_or((rest, ""));
+            let hp: Vec<&str> = head.split(' ').collect();
+            let r = match (hp.len() == 3, hp.first().and_then(|c| cfg_of_wire(c)), hp.get(2).and_then(|h| unhex(h)).and_then(|b| String::from_utf8(b).ok()), parse_items(items)) {
+                (true, Some(c), Some(t), Some((e, _))) => run_engine_text(&c, &e, &t), _ => "bad-request".into() };
+            let _ = tx.send(r); return;
+        }
         let r = match split_req(&req) { Some((_, cfg, edb, rules)) => run_engine(&cfg, &edb, &rules), None => "bad-request".into() };
         let _ = tx.send(r);
     });
